@@ -246,8 +246,12 @@ def handleHookSel (j inp impl : Json) : R Json := do
   let results := if owners.isEmpty then [render (selectHooks hs all key stage)]
     else owners.map (fun o => render (selectHooks hs [o] key stage))
   let ranNames := ran.map (fun s => (s.splitOn "=").headD s)
+  -- a "read" hook returns 77 when it can see a global, or a replaced API, that another hook's
+  -- script left behind: then a script reached a value that is neither inert data of its own, an
+  -- allow-listed library function nor a registered API
+  let sawForeign := ran.any (fun s => (s.splitOn "=").getLastD "" == "77")
   let ok := (cls == "ok" || cls == "nohooks" || cls == "noprincipal" || cls == "nohooksdefined") &&
-    hookSelOk hs all key stage ranNames
+    hookSelOk hs all key stage ranNames && !sawForeign
   let first := results.headD ("none", [])
   return Json.mkObj [
     ("id", (← field j "id")), ("agree", results.contains (cls, ran)), ("spec_impl", ok),
